@@ -302,7 +302,16 @@ class Universe:
             if c is None:
                 return False
             if op == "g_add":
-                O[p].add(O[c])
+                # "adding" has three spellings: add, append, extend([..])
+                how = st["c"] % 5
+                if how == 3:
+                    O[p].append(O[c])
+                    self.probe("children_appended")
+                elif how == 4:
+                    O[p].extend([O[c]])
+                    self.probe("children_appended")
+                else:
+                    O[p].add(O[c])
                 self.m_attach(p, c)
             else:
                 idx = st["c"] % (len(self.kids[p]) + 1)
@@ -364,7 +373,14 @@ class Universe:
             if a is None or c is None:
                 return False
             if op == "a_add":
-                O[a].add(O[c])
+                if st["c"] % 5 == 3:
+                    O[a].append(O[c])
+                    self.probe("children_appended")
+                elif st["c"] % 5 == 4:
+                    O[a].extend([O[c]])
+                    self.probe("children_appended")
+                else:
+                    O[a].add(O[c])
                 self.m_attach(a, c)
             else:
                 idx = st["c"] % (len(self.kids[a]) + 1)
@@ -453,7 +469,11 @@ class Universe:
             if c is None:
                 return False
             b = self.origin.pop(c)
-            O[b].add(O[c])
+            if st["c"] % 5 == 3:
+                O[b].append(O[c])
+                self.probe("children_appended")
+            else:
+                O[b].add(O[c])
             self.m_attach(b, c)
             return True
         if op == "c_remove":
